@@ -18,6 +18,7 @@ import itertools
 import json
 import math
 import random
+import time
 
 import vlib
 from vlib import vZ, vbool, vlist, vpair
@@ -389,6 +390,12 @@ def impl_indep(case):
     return {"outs": outs, "exp_shape": [int(v) for v in exp.shape], "exp_flat": [vlib.val_token(v) for v in exp.reshape(-1)], "ndim": nd}
 
 
+def impl_any(case):
+    """single entry point so that one worker pool (one JIT warm-up per worker) serves every phase"""
+    fn, c = case
+    return globals()[fn](c)
+
+
 def _mk_index(ix):
     return tuple(slice(*e) if isinstance(e, list) else e for e in ix)
 
@@ -677,7 +684,7 @@ def gen_kernel_cases(rng, tier):
                     nrsh = [sh[a] for a in nord]
                     sao = [ordr.index(a) for a in range(nd)]
                     ncsh = [math.prod(nrsh[:len(new_ca)]), math.prod(nrsh[len(new_ca):])]
-                    for n in rng.sample(range(size), min(size, 3)):
+                    for n in rng.sample(range(size), min(size, 2 if tier == "quick" else 4)):
                         cases.append({"k": "convert", "n": n, "old_shape": sh, "rsh": rsh, "sao": sao, "shape": sh,
                                       "new_ord": nord, "new_rsh": nrsh, "new_cshape": ncsh})
             cases.append({"k": "argmin", "l": sh})
@@ -769,10 +776,35 @@ def campaign(build, tier, seed, report, budget=1):
 
     def tag(t):
         tags[t] = tags.get(t, 0) + 1
+    phases = {}
+    t_phase = time.time()
+
+    def phase(name):
+        nonlocal t_phase
+        phases[name] = round(time.time() - t_phase, 1)
+        t_phase = time.time()
 
     # ---- 1. kernels
     kc = gen_kernel_cases(rng, tier)
-    kres = vlib.run_impl("props.c05", "impl_kernel", kc, workers=W)
+    n_make = (500 if tier == "quick" else 4000) * budget
+    mc = gen_make_cases(rng, tier, n_make)
+    n_chain = (1000 if tier == "quick" else 9000) * budget
+    cc = gen_chain_cases(rng, tier, n_chain)
+    # the witness of Props.C05.conversion_chain_den_refuted, replayed on the implementation (always case 0)
+    cc.insert(0, {"spec": {"shape": [], "coords": [[]], "data": [5], "fill": 0, "format": "coo", "caxes": None, "dtype": "int64"},
+                  "hops": [{"fmt": "dok", "via": 0}, {"fmt": "coo", "via": 0}]})
+    n_ind = (180 if tier == "quick" else 1800) * budget
+    ic = gen_indep_cases(rng, tier, n_ind)
+    # one pool for all four phases (the JIT warm-up of the numba kernels is paid once per worker, whenever
+    # it first meets a kernel: hence the generous per-case limit; nothing here is expected to hang)
+    allc = ([("impl_kernel", c) for c in kc] + [("impl_make", c) for c in mc] + [("impl_chain", c) for c in cc]
+            + [("impl_indep", c) for c in ic])
+    allr = vlib.run_impl("props.c05", "impl_any", allc, workers=W, per_case_timeout=90.0)
+    kres = allr[:len(kc)]
+    mres = allr[len(kc):len(kc) + len(mc)]
+    cres = allr[len(kc) + len(mc):len(kc) + len(mc) + len(cc)]
+    ires = allr[len(kc) + len(mc) + len(cc):]
+    phase("implementation")
     klits, kidx = [], []
     for i, (c, r) in enumerate(zip(kc, kres, strict=True)):
         k = c["k"]
@@ -819,10 +851,8 @@ def campaign(build, tier, seed, report, budget=1):
         viol.append(dict(property="C05", op="kernel:" + kc[i]["k"], kind="representation" if code == 1 else "value", clause=None,
                          case=kc[i], impl=kres[i], code=code, replay_py=replay_line("impl_kernel", kc[i])))
 
+    phase("kernels")
     # ---- 2. construction
-    n_make = (700 if tier == "quick" else 5000) * budget
-    mc = gen_make_cases(rng, tier, n_make)
-    mres = vlib.run_impl("props.c05", "impl_make", mc, workers=W)
     mlits = []
     for c, r in zip(mc, mres, strict=True):
         out = vlib.sarr_lit(r)
@@ -863,10 +893,8 @@ def campaign(build, tier, seed, report, budget=1):
         viol.append(dict(property="C05", op="construct:" + c["k"], kind=kind, clause=clause, code=code, what=what, case=c, impl=r,
                          replay_py=replay_line("impl_make", c)))
 
+    phase("construction")
     # ---- 3. conversion chains
-    n_chain = (1500 if tier == "quick" else 12000) * budget
-    cc = gen_chain_cases(rng, tier, n_chain)
-    cres = vlib.run_impl("props.c05", "impl_chain", cc, workers=W)
     clits, cidx = [], []
     distinct = set()
     for i, (c, r) in enumerate(zip(cc, cres, strict=True)):
@@ -913,10 +941,8 @@ def campaign(build, tier, seed, report, budget=1):
         viol.append(dict(property="C05", op="chain", kind=kind, clause=clause, code=code, hop=hop, what=what, case=cc[i], impl=cres[i],
                          replay_py=replay_line("impl_chain", cc[i])))
 
+    phase("chains")
     # ---- 4. representation independence
-    n_ind = (250 if tier == "quick" else 2500) * budget
-    ic = gen_indep_cases(rng, tier, n_ind)
-    ires = vlib.run_impl("props.c05", "impl_indep", ic, workers=W)
     ilits, iidx = [], []
     for i, (c, r) in enumerate(zip(ic, ires, strict=True)):
         tag("indep/" + c["op"]["k"])
@@ -932,7 +958,9 @@ def campaign(build, tier, seed, report, budget=1):
                          what="result depends on the representation the operand is held in (differs from NumPy on the dense operand)",
                          case=ic[i], impl=ires[i]["outs"][pos - 1], replay_py=replay_line("impl_indep", ic[i])))
 
+    phase("independence")
     cov = report["coverage"]
+    cov["phase_seconds"] = phases
     cov["evaluations"] = len(kc) + len(mc) + len(cc) + len(ic)
     cov["distinct_nontrivial"] = len(distinct) + len({jcase(c) for c in mc}) + len({jcase(c) for c in kc})
     cov["rule"] = ("kernels: exhaustive over small shapes/axes subsets + seeded random; construction: seeded structured inputs "
@@ -945,6 +973,10 @@ def campaign(build, tier, seed, report, budget=1):
     cov["chain_cases"] = len(cc)
     cov["chain_hops"] = sum(len(r.get("outs", [])) for r in cres)
     cov["independence_cases"] = len(ic)
+    w = cres[0].get("outs", [{}])[-1]
+    cov["refuted_witnesses_replayed"] = [{
+        "theorem": "conversion_chain_den_refuted", "input": "0-d COO holding 5 -> DOK -> COO",
+        "implementation": w.get("cls") or w.get("k"), "reproduced": w.get("k") == "exc"}]
     cov["differential_only"] = ["dtype preservation after every hop", "representation independence of sum/add/getitem/transpose"]
     cov["samples"] = [dict(case=cc[i], impl=cres[i]) for i in (0, len(cc) // 2, len(cc) - 1)] + [dict(case=mc[0], impl=mres[0])]
     cov["branch_tags"] = dict(sorted(tags.items()))
@@ -952,7 +984,16 @@ def campaign(build, tier, seed, report, budget=1):
     return viol
 
 
-UNPROVED = []
+UNPROVED = [
+    "conversion_chain_den (full statement): false of the code (0-d DOK holding an element -> COO raises); proved as "
+    "conversion_chain_den_partial under dok0d_clause, refuted by conversion_chain_den_refuted",
+    "surjectivity of _from_coo onto well-formed GCXS (gcxs_from_coo (gcxs_tocoo g) = g for an arbitrary gcxs_wfb g) and hence "
+    "uniqueness of the GCXS record at fixed axes and change_axes_den/wf for a GCXS not known to be the compressed form of a "
+    "canonical COO: not proved (every GCXS inside a chain is such a form, so the chain theorem does not need it); covered by "
+    "correspondence only (scipy csr/csc input, kernel cases)",
+    "conversions from scipy.sparse (from_scipy_sparse) and CSR/CSC class dispatch are not in the Coq chain type beyond FCsr/FCsc: "
+    "scipy hops are compared with the equivalent model hop by correspondence only",
+]
 
 
 def replay(path):
